@@ -4,7 +4,7 @@
    packet to all callbacks, unsolicited value changes on the device.  [run c (init c) evs = Some (s, o)] ranges
    over ALL event lists, i.e. all interleavings of any number of user threads with the updater and dispatcher
    threads at the granularity "a thread runs until its next blocking operation", and all reply delays. *)
-From CF Require Import Common.Bytes C04.Model C04.Proofs C04.Proofs_b C04.Proofs_c C04.Proofs_d C04.Examples.
+From CF Require Import Common.Bytes C04.Model C04.Proofs C04.Proofs_b C04.Proofs_c C04.Proofs_d C04.Proofs_e C04.ExtModel C04.Proofs_x C04.Examples.
 Open Scope Z_scope.
 
 (* ---------------------------------------------------------------- typed writes *)
@@ -130,3 +130,61 @@ Theorem C04_same_param_requests_share_reply_refuted : exists c evs s o,
   misc_calls o = [(1, 0, MState false (VInt 7) None); (3, 0, MState false (VInt 7) None)] /\ s_clos s = [].
 Proof. destruct ex_f04b as [s [o [H1 [H2 [H3 H4]]]]]. exists (ex_cfg true), ex_f04b_events, s, o. now repeat split. Qed.
 Print Assumptions C04_same_param_requests_share_reply_refuted.
+
+(* ---------------------------------------------------------------- cache = device store, globally *)
+
+(* For every event list of the repaired code and every parameter of the TOC: whenever no packet carrying a value for
+   that parameter (read reply, write reply, notification) is on its way — in particular at quiescence — the cached
+   value, which is what get_value returns, is either still absent or the device's CURRENT value decoded with the
+   parameter's declared type. *)
+Theorem C04_cache_is_device_when_quiet : forall c evs s o e,
+  wf c -> idmatch c = true -> run c (init c) evs = Some (s, o) -> In e (toc c) ->
+  last_val (e_id e) (d_out s) = None ->
+  get_value c s (e_name e) = cache_get (e_id e) (s_cache s) /\
+  (cache_get (e_id e) (s_cache s) = None \/
+   cache_get (e_id e) (s_cache s) = unpack (e_ty e) (aget (e_id e) (d_store s))).
+Proof. exact cache_is_device. Qed.
+Print Assumptions C04_cache_is_device_when_quiet.
+
+(* ---------------------------------------------------------------- extended-type replies (_ExtendedTypeFetcher) *)
+
+(* repaired callback: a packet that is not an extended-type reply (notification, reply to another misc command, any
+   other channel) never changes the fetcher *)
+Theorem C04_ext_other_packets_ignored : forall c s p,
+  x_cmdcheck c = true -> is_xreply p = false -> f_on_packet c s p = (s, []).
+Proof. exact f_other_ignored. Qed.
+Print Assumptions C04_ext_other_packets_ignored.
+
+(* an extended-type reply for a parameter other than the one in flight (duplicated, late) changes nothing *)
+Theorem C04_ext_reply_not_in_flight_ignored : forall c s j xt,
+  0 <= j < 65536 -> f_req s <> j -> f_on_packet c s (3, 2 :: id2 j ++ [xt]) = (s, []).
+Proof. exact f_reply_not_in_flight. Qed.
+Print Assumptions C04_ext_reply_not_in_flight_ignored.
+
+(* For every event list (worker steps, deliveries, arbitrary other packets from the device): the requests on the
+   wire are a prefix of the extended ids in table order, answered ones first, at most one in flight; exactly one
+   extended-type reply is on the link while the lock is held, and it is the reply for the parameter in flight; the
+   ids marked persistent are exactly the answered ones whose device type is 1; the done callback has fired exactly
+   once iff every request has been answered (_count = number of unanswered requests), never before. *)
+Theorem C04_ext_phase : forall c evs s o,
+  wf_xcfg c = true -> x_cmdcheck c = true -> x_ids c <> [] -> frun c (fstart c) evs = Some (s, o) ->
+  x_ids c = f_ans s ++ inflight s ++ opt_list (f_hand s) ++ f_queue s /\
+  f_sent s = f_ans s ++ inflight s /\
+  length (filter is_xreply (f_out s)) = b2n (f_lock s) /\
+  (f_lock s = true -> forall p, In p (f_out s) -> is_xreply p = true -> p = xreply c (f_req s)) /\
+  f_pers s = rev (filter (fun i => xtype c i =? 1) (f_ans s)) /\
+  f_count s = Z.of_nat (length (inflight s ++ opt_list (f_hand s) ++ f_queue s)) /\
+  f_done s = (if f_count s =? 0 then 1 else 0).
+Proof. exact ext_phase. Qed.
+Print Assumptions C04_ext_phase.
+
+(* Before the repair (F04e): a MISC_VALUE_UPDATED notification for the parameter in flight is taken as its
+   extended-type reply: id 10, whose device type is 0, ends up marked persistent. *)
+Theorem C04_ext_unrepaired_refuted : exists c evs s o,
+  wf_xcfg c = true /\ x_cmdcheck c = false /\ frun c (fstart c) evs = Some (s, o) /\
+  In 10 (f_pers s) /\ xtype c 10 = 0 /\ f_done s = 1.
+Proof.
+  destruct ex_f04e as [s [o [H1 [H2 [H3 [H4 H5]]]]]]. exists (ex_x false), ex_x_events, s, o.
+  repeat split; try assumption. rewrite H3. right. now left.
+Qed.
+Print Assumptions C04_ext_unrepaired_refuted.
